@@ -6,7 +6,7 @@ EXPLANATION = (
     "[EOF] every awaited self.reader read in a _receive_impl (3 implementations found via the class hierarchy) surfaces end of stream as an "
     "exception: readexactly/readuntil raise by contract; read/readline return b'' and must be followed, on every path to the return, by an "
     "emptiness test whose empty branch can only raise. [FAULT-PATH] the `except Exception` handlers around the receive call and around the "
-    "writes in send, on their not-CLOSED branch, call _update_state(DISCONNECTED) and then create the connect() task on every path. [RETRY] "
+    "writes in send, on their not-CLOSED branch, call _update_state(DISCONNECTED) and then create the connect() task on every path. [FAULT-PATH] is evaluated per state value: with the client CONNECTED or DISCONNECTED every path through the handler reports and reconnects, with CLOSED neither. [BUF-RESET] the buffering client's _connect_impl resets its buffer on every normal path. [RETRY] "
     "AsyncRetrying(stop=stop_never, wait=wait_exponential(multiplier>0, 0<max<inf), retry on Exception) with _connect_impl awaited inside "
     "`with attempt` => delays min(max, m*2^(n-1)): growing, capped, never zero. [ONE-RX] the receive loop is started at one site, under the "
     "connect lock, stored, and dominated by cancellation of a running predecessor. [YIELD] every cycle of the two background loops passes an "
@@ -19,10 +19,11 @@ ASSUMPTIONS = ["CPython ast parser", "asyncio.StreamReader: readexactly/readunti
 def run(chk, program, tier):
     for r, t in (('EOF', 'end of stream becomes an exception'), ('FAULT-PATH', 'fault -> DISCONNECTED -> reconnect task'),
                  ('RETRY', 'retry forever, exponential capped non-zero delay'), ('ONE-RX', 'one receive path at a time'),
-                 ('YIELD', 'no cycle of a background loop can spin without suspending')):
+                 ('YIELD', 'no cycle of a background loop can spin without suspending'), ('BUF-RESET', 'a new connection starts with an empty reassembly buffer')):
         chk.rule(r, t)
     K.eof_rule(chk, program)
     K.fault_path(chk, program)
     K.retry_rule(chk, program)
     K.one_rx(chk, program)
     K.yield_rule(chk, program)
+    K.buf_reset(chk, program)
